@@ -345,6 +345,7 @@ def handleWin (op : String) : P String := do
       | "empty" => pure ("PLAN " ++ showActs (planEmpty s) ++ " | " ++ showBool (checkPlan fs stop goal s (planEmpty s) ⟨[], []⟩))
       | "memory" => pure ("PLAN " ++ showActs (planMemory s) ++ " | " ++ showBool (checkPlan fs stop goal s (planMemory s) ⟨[], []⟩))
       | "keydoor" => pure ("PLAN " ++ showActs (planKeydoor s) ++ " | " ++ showBool (checkPlan fs stop goal s (planKeydoor s) ⟨[], []⟩))
+      | "teleport" => pure ("PLAN " ++ showActs (planTeleport s) ++ " | " ++ showBool (checkPlan fs stop goal s (planTeleport s) ⟨[], []⟩))
       | _ => failure
   | _ => failure
 
